@@ -304,10 +304,8 @@ def argty_oracle(ctx, progs, res):
 
 def run(ctx):
     ctx.extract()
-    ctx.build_lean([m for m in ("GomlVerif.Props.C03", "GomlVerif.Props.C03pres", "GomlVerif.Props.C03Arity",
-                                "GomlVerif.Props.Unify", "GomlVerif.Props.Solve", "GomlVerif.Props.Infer")
     ctx.build_lean([m for m in ("GomlVerif.Props.C03", "GomlVerif.Props.C03pres", "GomlVerif.Props.C03Arity", "GomlVerif.Props.C03ArgTy",
-                                "GomlVerif.Props.Unify", "GomlVerif.Props.Solve")
+                                "GomlVerif.Props.Unify", "GomlVerif.Props.Solve", "GomlVerif.Props.Infer")
                     if os.path.exists(os.path.join(vlib.LEAN, m.replace(".", "/") + ".lean"))])
     if not ctx.build_harness():
         return ctx.finish("proof", {"evaluations": 0, "distinct_nontrivial": 0}, [], "lake build")
